@@ -129,7 +129,8 @@ def r2(ctx: Ctx) -> None:
 
 @rule("C03", "R4.fixed-cells", "GUARD/OBLIGATION",
       "fixed cells are pre-allocated as {module: 1.0} at depth 0, skipped by the general loop, and the detector "
-      "asserts that a cell is wholly or not at all a fixed module's and that every fixed rectangle is found", floor=4)
+      "asserts that a cell is wholly or not at all a fixed module's and that every fixed rectangle is found; the candidate "
+      "owners are exactly the fixed modules of the netlist, examined against every cell", floor=4)
 def r4(ctx: Ctx) -> None:
     f = ctx.func(ALLOC, "Allocation.initial_allocation")
     c = canon_function(f, ctx.model)
@@ -230,7 +231,8 @@ def _near_one(d: S, a_: S) -> bool:
 
 
 @rule("C03", "R5.entry-iff-covered", "GUARD",
-      "a module is listed in a cell iff zero entries are requested or its ratio is strictly positive", floor=1)
+      "a module is listed in a cell iff zero entries are requested or its ratio is strictly positive; zero entries are off "
+      "by default in both entry points and the option is handed through", floor=1)
 def r5(ctx: Ctx) -> None:
     f = ctx.func(ALLOC, "Allocation.initial_allocation")
     c = canon_function(f, ctx.model)
